@@ -22,7 +22,7 @@ def meta(tier):
         cls = getattr(A.amod(c), c)
         fs += [getattr(cls, n) for n in ("pareto_updating", "useful_updating", "epsiloncovering", "big_m") if hasattr(cls, n)]
     return {"level": "model_checking", "functions": src_info(*fs),
-            "bounds": {"N": "3 designs (4 thorough, 2-D cones)", "m": "2 (3 thorough)", "pre-states": "every assignment of "
+            "bounds": {"N": "3 designs (4 in the thorough tier for the PaVeBa family on orthant2, theta60, theta120)", "m": "2 (3 thorough)", "pre-states": "every assignment of "
                        "the designs to S/U/P/gone with S non-empty; regions arbitrary (symbolic)",
                        "rounds": "one round from an arbitrary state (covers every history for that N)"},
             "stubs": ["region predicates replaced by table look-ups DOM/COV/PD keyed by (design, design, slack) — the "
